@@ -481,9 +481,13 @@ PROBES = {
     "F31": P([["join", {"id": "Q", "src": "t", "steps": [["alias", False]]},
                [["fn", "equal", [col("id"), ["col", "Q@1", "id"]]], ["fn", "equal", [col("id"), ["col", "Q@1", "id"]]]],
                "inner", None]]),
-    "F45": {**P([["filter", [["fn", "equal", [col("id"), ["lit", 1]]]]],
-                 ["join", {"id": "Q", "src": "t", "steps": [["alias", False]]},
-                  [["fn", "equal", [col("g"), ["col", "Q@1", "g"]]]], "left", None],
-                 ["mutate", [["z1", ["fn", "mean", [["fn", "horizontal_min", [col("a"), ["lit", 1], ["lit", -1]]]],
-                                     {"partition_by": [col("s")]}]]]]]), "only": ["polars"]},
+    "F45": {"pipe": {"id": "P0", "src": "t0", "steps": [
+                ["join", {"id": "P1", "src": "t1", "steps": []}, [["fn", "equal", [["col", "P0@0", "id"], ["col", "P1@0", "b"]]]], "left", None],
+                ["mutate", [["z1", ["fn", "mean", [["fn", "horizontal_min", [["col", "P0@0", "g"], ["lit", 1], ["lit", -1]]]],
+                                    {"partition_by": [["col", "P0@0", "s"]]}]]]]]},
+            "tables": {"t0": {"cols": [["id", "Int64"], ["b", "Int64"], ["g", "Int64"], ["s", "String"]],
+                              "rows": [[1, 6, 0, "bb"]], "shape": "single"},
+                       "t1": {"cols": [["id", "Int64"], ["b", "Int64"], ["g", "Int64"], ["s", "String"]],
+                              "rows": [[3, 1, 1, "xy"], [1, 1, 0, "a"], [2, -1, 1, "xy"]], "shape": "dups"}},
+            "only": ["polars"]},
 }
